@@ -335,8 +335,9 @@ def gen_spec(R, *, n_lf=None, hc=False, small=False, kinds=None, vrl=None, rows=
                 v = gen_attr_value(R, row, objs, li, hc=hc)
                 if v is None:
                     continue
-                if kind in ('parameter', 'computation') and pyname == 'values' and isinstance(v, list) and len(v) != 1:
-                    v = v[:1] if v and not isinstance(v[0], list) else [1.5]
+                if kind == 'parameter' and pyname == 'values' and isinstance(v, list):
+                    fl = eflr.flatten(v)
+                    v = fl[:1] if fl else [1.5]       # without zones a parameter takes a single value
                 u = None
                 if us and R.random() < 0.3:
                     u = R.choice(ENUMS['Unit'][:40]) if hc or R.random() < 0.7 else R.choice(['unknown-unit', 'u' * 130])
